@@ -981,7 +981,7 @@ func (e *c12Evil) length(n int) []byte {
 
 func (e *c12Evil) tag(b byte) byte {
 	if e.evil() {
-		return byte(2 + e.r.Intn(254))
+		return byte(e.r.Pick(2, 2, 2, 3, 128, 255, 1-int(b&1), 2+e.r.Intn(254)))
 	}
 	return b
 }
